@@ -466,4 +466,16 @@ SILENT = [
     Silent("resume-extracted-into-helper", D, "            isFailure = isinstance(result, Failure)\n\n            if isFailure:\n                result = context.run(\n                    cast(Failure, result).throwExceptionIntoGenerator, gen\n                )\n            else:\n                result = context.run(gen.send, result)\n",
            "            isFailure = isinstance(result, Failure)\n            result = _advance(gen, result, context)\n",
            more=[(D, "@_extraneous\ndef _inlineCallbacks(", "def _advance(gen, outcome, context):\n    if isinstance(outcome, Failure):\n        return context.run(outcome.throwExceptionIntoGenerator, gen)\n    return context.run(gen.send, outcome)\n\n\n@_extraneous\ndef _inlineCallbacks(")]),
+    Silent("slot-selected-by-conditional-expression", D, "                if not isinstance(current.result, Failure):\n                    callback, args, kwargs = item[0]\n                else:\n                    # type note: Callback signature also works for Errbacks in\n                    #     this context.\n                    callback, args, kwargs = item[1]\n",
+           "                callback, args, kwargs = item[1] if isinstance(current.result, Failure) else item[0]\n"),
+    Silent("hand-over-detected-by-stack-depth", D, "            finished = True\n            current._chainedTo = None\n", "            before = len(chain)\n            current._chainedTo = None\n",
+           more=[(D, "                    finished = False\n                    break\n", "                    break\n"),
+                 (D, "            if finished:\n                # As much of the callback chain", "            if len(chain) == before:\n                # As much of the callback chain")]),
+    Silent("waiting-cell-as-state-class", D, "    waiting: List[Any] = [True, None]\n\n    stopIteration: bool = False\n", "    waiting = _Box()\n\n    stopIteration: bool = False\n",
+           more=[(D, "    if waiting[0]:\n        waiting[0] = False\n        waiting[1] = r\n    else:\n        _inlineCallbacks(r, gen, status, context)\n", "    if waiting.armed:\n        waiting.armed = False\n        waiting.value = r\n    else:\n        _inlineCallbacks(r, gen, status, context)\n"),
+                 (D, "    r: object,\n    waiting: List[Any],\n", "    r: object,\n    waiting: \"_Box\",\n"),
+                 (D, "            if waiting[0]:\n                # Haven't called back yet, set flag so that we get reinvoked\n                # and return from the loop\n                waiting[0] = False\n                status.waitingOn", "            if waiting.armed:\n                waiting.armed = False\n                status.waitingOn"),
+                 (D, "            result = waiting[1]\n", "            result = waiting.value\n"),
+                 (D, "            # branch above would have been taken.\n\n            waiting[0] = True\n            waiting[1] = None\n", "            # branch above would have been taken.\n\n            waiting.armed = True\n            waiting.value = None\n"),
+                 (D, "def _gotResultInlineCallbacks(\n", "class _Box:\n    __slots__ = (\"armed\", \"value\")\n\n    def __init__(self):\n        self.armed = True\n        self.value = None\n\n\ndef _gotResultInlineCallbacks(\n")]),
 ]
